@@ -24,11 +24,14 @@ def main(argv=None):
     ap.add_argument('--tier', default=os.environ.get('VERIF_TIER') or 'quick', choices=['quick', 'thorough'])
     ap.add_argument('--replay')
     ap.add_argument('--seed', type=int, default=None)
+    ap.add_argument('--run', type=int, default=None, help='debug: execute only run <n> of the batch')
     a = ap.parse_args(argv)
     seed = a.seed if a.seed is not None else int(os.environ.get('VERIF_SEED') or 0)
     cid = a.check_id.upper()
     if a.replay:
         return runner.replay(cid, a.replay)
+    if a.run is not None:
+        return runner.single(cid, a.tier, seed, a.run)
     return runner.run_check(cid, a.tier, seed)
 
 
